@@ -746,6 +746,9 @@ def merge(tmpl_toks, src_exec):
     # occurrence maps the same way - otherwise nothing is renamed and the verifier decides (or rejects) as is.
     ren = {}
     bad = set()
+    conflict = set()   # one old name, several new ones (two variables of the same name renamed apart)
+    multi = {}
+    hard_bad = set()
     for tag, i1, i2, j1, j2 in opcodes:
         if tag == 'replace' and i2 - i1 == j2 - j1:
             for k in range(i2 - i1):
@@ -753,18 +756,23 @@ def merge(tmpl_toks, src_exec):
                 if x != y:
                     if i1 + k > 0 and a[i1 + k - 1] == '.':
                         bad.add(x)   # a field or method name changed: not a rename of a local
+                        hard_bad.add(x)
                     elif re.match(r'^[A-Za-z_][A-Za-z0-9_]*$', x) and re.match(r'^[A-Za-z_][A-Za-z0-9_]*$', y) and tmpl_toks[exec_idx[i1 + k]].kind == 'ident':
                         if ren.get(x, y) != y:
                             bad.add(x)
+                            conflict.add(x)
                         ren[x] = y
+                        multi.setdefault(x, set()).add(y)
                     else:
                         bad.add(x)
+                        hard_bad.add(x)
     # names of locals: identifiers that are not field or method names (not preceded by `.`)
     def is_field(ts, k):
         # `.name`, or `name:` inside a struct literal / pattern (`{ name: ..` / `, name: ..`)
         return (k > 0 and ts[k - 1] == '.') or (k > 0 and k + 1 < len(ts) and ts[k + 1] == ':' and ts[k - 1] in ('{', ','))
     sa = set(x for k, x in enumerate(a) if not is_field(a, k))
     sb = set(x for k, x in enumerate(b) if not is_field(b, k))
+    ren_all = dict(ren)
     ren = {x: y for x, y in ren.items() if x not in bad and x not in sb and y not in sa and x not in KEYWORDS and y not in KEYWORDS}
     # a rename keeps the number of occurrences (otherwise the new name is another variable that happens to stand where the old
     # one was declared)
@@ -775,6 +783,26 @@ def merge(tmpl_toks, src_exec):
         for k, t in enumerate(out):
             if getattr(t, 'ghost', False) and t.kind == 'ident' and t.text in ren and not is_field([z.text for z in out[max(0, k - 1):k + 2]], 1 if k > 0 else 0):
                 t.text = ren[t.text]
+    # a name used for two variables (a loop variable `t` and, further down, an `if let Some(ref mut t)`) of which one was renamed:
+    # the old name is still there, so the rename is followed by position - a ghost occurrence takes the name the nearest
+    # executable occurrence before it (failing that, after it) now has
+    scoped = {x: ys for x, ys in multi.items() if x not in ren and x not in hard_bad and (x in sb or x in conflict) and not (ys & sa) and x not in KEYWORDS
+              and not (ys & KEYWORDS) and cnt_a(x) == sum(cnt_b(y) for y in ys) + cnt_b(x)}
+    if scoped:
+        txt = [z.text for z in out]
+        def nearest(k, x, ys):
+            for rng in (range(k - 1, -1, -1), range(k + 1, len(out))):
+                for q in rng:
+                    z = out[q]
+                    if not getattr(z, 'ghost', False) and z.kind == 'ident' and (z.text == x or z.text in ys) and not is_field(txt, q):
+                        return z.text
+            return x
+        todo = []
+        for k, t in enumerate(out):
+            if getattr(t, 'ghost', False) and t.kind == 'ident' and t.text in scoped and not is_field(txt, k):
+                todo.append((k, nearest(k, t.text, scoped[t.text])))
+        for k, name in todo:
+            out[k].text = name
     return out
 
 
